@@ -41,6 +41,8 @@ RULE = (
     'involved; distinct = hash(adapter, mode, dataset seed, sizes)')
 ASSUMPTIONS = list(_c01.ASSUMPTIONS) + [
     'a fresh state is what the constructor / create_state() returns, never fed',
+    'states are not built by new(batch) from a batch that holds only NaN (such a state '
+    'has count 0 but already a shape, a fresh one has none: [nan, nan] vs nan)',
     'grouping compares every bracketing / permutation with the in-order left fold of '
     'the same states (not with a single-batch run; that is C01)',
     'order-carrying accumulators (UnboundedSampler, ValueAccumulator) keep the order of '
@@ -61,7 +63,7 @@ EXHAUSTIVE = {'quick': False, 'thorough': False}
 CHUNK_TIMEOUT_S = {'quick': 240, 'thorough': 3000}
 
 N_CHUNKS = {'quick': 32, 'thorough': 64}
-CASES_PER_ADAPTER_MODE = {'quick': 32, 'thorough': 1500}
+CASES_PER_ADAPTER_MODE = {'quick': 32, 'thorough': 1600}
 
 
 def plan(tier, seed):
@@ -160,7 +162,8 @@ def check_case(ctx, case, reg):
   for part in parts:
     h = drv.make()
     if (part and mode == 'obj' and ad.one_batch_path == 'new'
-        and ad.new_state_is_accumulator and rng.random() < 0.5):
+        and ad.new_state_is_accumulator and rng.random() < 0.5
+        and not _c01._all_nan(part)):  # pylint: disable=protected-access
       # A batch state exactly as the library builds it inside add(): new(batch).
       try:
         st = ad.one_batch_state(part)
@@ -323,6 +326,14 @@ def check_case(ctx, case, reg):
       d = A.compare_obs(ad, drv.observe(op), snap)
       if d:
         viol('receiver_update_leaks_into_operand', dict(where, update=x_rows), diffs=d)
+      # ... and a later merge into the receiver (an update by merging)
+      third = states[rng.randrange(m)]
+      _guard('second merge into receiver', drv.merge, recv, [drv.clone(third)])
+      _guard('second merge into receiver', drv.merge, twin_recv, [drv.clone(third)])
+      d = A.compare_obs(ad, drv.observe(op), snap)
+      if d:
+        viol('receiver_update_leaks_into_operand',
+             dict(where, update='merge of another state into the receiver'), diffs=d)
       r1 = drv.observe(recv)
       d = A.compare_obs(ad, r1, drv.observe(twin_recv))
       if d:
